@@ -221,6 +221,20 @@ Theorem c20_negative_number_cuts_argument_list : forall pre o args t post,
 Proof. exact num_args_cut. Qed.
 Print Assumptions c20_negative_number_cuts_argument_list.
 
+(* the law of the parser: the parameters of an option END at the next argument starting with '-', whatever follows.  An
+   option with fewer than its mandatory parameters is rejected even when more arguments (a flag, another option and its
+   parameters) are left on the command line *)
+Theorem c20_truncated_then_flag_rejected : forall pre a args flag post nm,
+  ~ In a pre -> Forall (fun x => is_dash x = false) args -> is_dash flag = true -> List.length args < nm ->
+  option3 (pre ++ a :: args ++ flag :: post) a nm = Exit 1%Z.
+Proof. exact truncated_then_flag_rejected. Qed.
+Print Assumptions c20_truncated_then_flag_rejected.
+
+Example c20_ex_truncated_then_flag :
+  let r := run_tool tool_om_assemble (cmdline ["om_assemble"; "-HM"; "g"; "c"; "-old-ordering"]%string) in
+  r_final r = FExit 1%Z /\ r_execs r = [].
+Proof. vm_compute. split; reflexivity. Qed.
+
 Theorem c20_all_parameters_counted : forall pre o args,
   Forall (fun x => is_dash x = false) args -> num_args (pre ++ o :: args) (List.length pre) = List.length args.
 Proof. exact num_args_all. Qed.
